@@ -12,6 +12,7 @@ ops
 expressions / targets are s-expressions, see `evalV` / `evalM` / `placeV` / `placeM`.
 -/
 import SharkVerif.Model.Remora
+import Driver.C01Kern
 open SharkVerif.Remora
 
 inductive SE where
@@ -319,6 +320,10 @@ def doRed (st : Store) (kind : String) (args : List SE) : Except String String :
 
 def step (st : Store) (line : String) : Store × String :=
   let toks := tokenize line.trimAscii.toString
+  if (toks.head?.getD "").startsWith "k" then
+    -- kernel ops (stateless): Driver/C01Kern.lean
+    (st, (C01Kern.step toks).getD "bad-op")
+  else
   match toks with
   | [] => (st, "")
   | ["new"] => ({}, "ok")
